@@ -38,6 +38,7 @@ def segs_terms(segs):
             out.append(s[1]); out += segs_terms(s[3])
         elif s[0] == 'raw': out += [s[2]]
         elif s[0] == 'pkglen': out += [s[1], s[2]]
+        elif s[0] == 'prefix': out.append(s[1]); out += segs_terms(s[2])
     return out
 
 def make_cells(lo, hi, ths):
@@ -73,6 +74,18 @@ def in_cell(segs, var, lo, hi, extra=None):
                     out.append(('int', rebuild(rebuild(s[1], f), f), s[2]))
                 elif s[0] == 'rep':
                     out.append(('rep', rebuild(s[1], f), s[2], tuple(go(s[3]))))
+                elif s[0] == 'prefix':
+                    # the first h bytes of a fixed-size buffer, h constant on this cell
+                    h = rebuild(rebuild(s[1], f), f)
+                    inner = go(list(s[2]))
+                    if h[0] == 'c' and all(x[0] == 'int' for x in inner):
+                        by = []
+                        for x in inner:
+                            if x[2] == 1: by.append(x)
+                            elif x[1][0] == 'c': by.extend(('int', C((x[1][1] >> (8 * j)) & 0xff), 1) for j in range(x[2]))
+                            else: by = None; break
+                        if by is not None and 0 <= h[1] <= len(by): out.extend(by[:h[1]]); continue
+                    unresolved.append(h); out.append(('prefix', h, tuple(inner)))
                 else:
                     out.append(s)
             return out
